@@ -2,7 +2,8 @@
 From Coq Require Import List NArith Bool.
 Import ListNotations.
 From SV Require Import Utf8 Escape Yaml YamlProofs.
-From SV Require Import YamlFlow.
+From SV Require Import YamlFlow Duration DurationProofs OneLiner OneLinerProofs.
+From Coq Require Import ZArith.
 Local Open Scope N_scope.
 
 (* scrut's own part of the one-line {...} form is the scalar notation of environment values, names and paths.
@@ -28,6 +29,36 @@ Example C17_environment_instance :     (* two variables; the second name holds a
   read_env (env_text [([65], [120]); ([98; 32; 99], [44; 32; 125; 34])] ++ [125]) = Some ([([65], [120]); ([98; 32; 99], [44; 32; 125; 34])], [125]).
 Proof. vm_compute. reflexivity. Qed.
 
+(* every duration of a configuration (timeout, wait, total_timeout) is written with humantime::format_duration and read with
+   humantime::parse_duration: for every Duration there is -- whole seconds below 2^64 and nanoseconds below 10^9 -- the text that is
+   written (years of 365.25 days, months of 30.44 days, days, h, m, s, ms, us, ns; zero parts left out; `0s` for nothing) reads
+   back as exactly that duration: no part is rounded, merged, lost or overflows on the way *)
+Theorem C17_duration_round_trip : forall secs nanos, secs < 18446744073709551616 -> nanos < 1000000000 ->
+  parse_duration (format_duration secs nanos) = DOk secs nanos.
+Proof. exact duration_round_trip. Qed.
+Example C17_duration_instance :     (* 1 day and half a second; 400 days 5 s 6 ms 7 us 8 ns; the largest Duration *)
+  format_duration 86400 500000000 = [49;100;97;121;32;53;48;48;109;115]
+  /\ parse_duration (format_duration 34560005 6007008) = DOk 34560005 6007008
+  /\ parse_duration (format_duration 18446744073709551615 999999999) = DOk 18446744073709551615 999999999
+  /\ parse_duration [49;100;97;121] = DOk 86400 0 /\ parse_duration [49;32;48;115] = DOk 10 0 /\ parse_duration [53] = DErr.
+Proof. repeat split; vm_compute; reflexivity. Qed.
+
+(* the whole one-line configuration: whatever subset of the eight settings a test case carries -- output stream, the three
+   flags, timeout, skip code, wait with or without path, any environment -- the text `{key: value, ...}` that
+   to_yaml_one_liner writes is read by the reference reader of that notation as exactly the configuration it was written
+   from: every key once, every value unchanged, nothing absent becomes present *)
+Theorem C17_one_liner_reads_back : forall c, wf_cfg c -> read_one_liner (one_liner c) = Some c.
+Proof. exact one_liner_reads_back. Qed.
+Example C17_one_liner_instance :
+  let c := mkY (Some 2) None (Some (86400, 500000000)) (Some false) (Some (-3)%Z) None (Some (5, 0, Some [47; 116; 32; 125])) [([65], [44; 32; 125])] in
+  wf_cfg c /\ read_one_liner (one_liner c) = Some c
+  /\ one_liner (mkY None (Some true) (Some (1, 5000000)) None None None None []) =
+     [123; 107;101;101;112;95;99;114;108;102; 58;32; 116;114;117;101; 44;32; 116;105;109;101;111;117;116; 58;32; 49;115;32;53;109;115; 125].
+Proof.
+  split; [|split; vm_compute; reflexivity].
+  unfold wf_cfg, scalar_ok, pair_ok. cbn. repeat split; try reflexivity; try (intro; discriminate); repeat constructor.
+Qed.
+
 Check C17_quoted_round_trip : forall t, Forall (fun c => c < 1114112) t -> yaml_unquote (yaml_quoted t) = Some t.
 
 (* a value with quote, backslash, colon-space, comma, braces, #, DEL, NEL and surrounding spaces *)
@@ -43,3 +74,5 @@ Print Assumptions C17_quoted_round_trip.
 Print Assumptions C17_quoted_clean.
 Print Assumptions C17_scalar_round_trip.
 Print Assumptions C17_environment_reads_back.
+Print Assumptions C17_duration_round_trip.
+Print Assumptions C17_one_liner_reads_back.
